@@ -65,6 +65,18 @@ def check(plan) -> Result:
         data, _ = encode(("D", i, 0, 0), 9000 + i)
         proto.data_received(data)
         expected = (expected + 1) % 8
+    if plan.get("up_raise"):
+        # the EZSP layer raises while handling every n-th frame it is handed (after having taken it)
+        _dr, cnt = up.data_received, {"n": 0}
+
+        def _data_received(data):
+            _dr(data)
+            cnt["n"] += 1
+            if cnt["n"] % plan["up_raise"] == 0:
+                raise RuntimeError("upper layer failed while handling a frame")
+
+        up.data_received = _data_received
+        r.cls("upper-layer-raises")
     acc = ref = wraps = 0
     for sym in seq:
         idx += 1
@@ -84,6 +96,10 @@ def check(plan) -> Result:
         data, payload = encode(sym, idx)
         try:
             proto.data_received(data)
+        except RuntimeError as e:
+            if "upper layer failed" not in str(e):
+                r.bad("C04:raises", f"{sym} at {idx}: {e!r}")
+                return r
         except Exception as e:
             r.bad("C04:raises", f"{sym} at {idx}: {e!r}")
             return r
@@ -231,7 +247,10 @@ def long_seq(draw):
         elif sym[0] == "K":
             exp = 0
         seq.append(list(sym))
-    return {"start": start, "seq": seq}
+    plan = {"start": start, "seq": seq}
+    if draw(st.integers(0, 3)) == 0:
+        plan["up_raise"] = draw(st.integers(1, 5))
+    return plan
 
 
 def run(ctx):
@@ -264,6 +283,7 @@ def run(ctx):
 @st.composite
 def merged_seq(draw):
     plan = draw(long_seq())
+    plan.pop("up_raise", None)
     n = min(len(plan["seq"]), 60)
     plan["seq"] = plan["seq"][:n]
     plan["cuts"] = sorted(draw(st.sets(st.integers(0, n - 1), max_size=n // 2)))
